@@ -103,6 +103,9 @@ pub enum Op {
     /// (C15) the signer is initialised again with the same TA key and the
     /// proxy is told about it
     TaReinit,
+    /// (C15) a child of the TA played by the harness asks for a certificate
+    /// for its key number `key` (local request path, hook H7)
+    TaChildIssue { key: u8 },
 }
 
 impl std::fmt::Display for Op {
@@ -421,7 +424,7 @@ impl World {
                 OpOutcome { ok: true, err: None, tasks: vec![], fatal: None }
             }
             Op::Restart => OpOutcome::from_res(self.restart()),
-            Op::TaMake | Op::TaSign { .. } | Op::TaDeliver { .. } | Op::TaReinit => OpOutcome {
+            Op::TaMake | Op::TaSign { .. } | Op::TaDeliver { .. } | Op::TaReinit | Op::TaChildIssue { .. } => OpOutcome {
                 ok: false,
                 err: Some("operation is executed by the C15 model".into()),
                 tasks: vec![],
